@@ -492,7 +492,7 @@ class Fn:
                 r = ("local", n, name or "_%d" % n)
             elif len(alts) == 1:
                 r = alts[0]
-                if name and r[0] in ("call", "bin", "agg", "phi", "cast", "un"):
+                if name and r[0] in ("call", "bin", "agg", "phi", "cast", "un", "field", "index", "icall"):
                     r = ("var", name, r)
             else:
                 # de-duplicate
@@ -628,7 +628,14 @@ def strip(sym, extra=()):
             return sym
 
 
-def fmt_sym(sym, transparent=True, maxdepth=12):
+def fmt_named(sym, maxdepth=12):
+    """Like fmt_sym, but a user variable is printed by its name instead of being expanded to its definition."""
+    return fmt_sym(sym, True, maxdepth, named=True)
+
+
+def fmt_sym(sym, transparent=True, maxdepth=12, named=False):
+    if named:
+        return _fmt_named(sym, maxdepth)
     if maxdepth <= 0:
         return "…"
     k = sym[0]
@@ -788,3 +795,33 @@ def _dominators(n, entry, succs):
                 idom[b] = new
                 changed = True
     return idom
+
+
+def _fmt_named(sym, maxdepth):
+    """fmt with user variables kept as names: implemented by rewriting ('var', name, _) to ('local', 0, name)."""
+    def rw(s, depth):
+        if not isinstance(s, tuple) or not s or depth > 40:
+            return s
+        k = s[0]
+        if k == "var":
+            return ("local", 0, s[1])
+        if k in ("field", "variant", "discr", "subslice"):
+            return (k, rw(s[1], depth + 1)) + s[2:]
+        if k == "index":
+            return (k, rw(s[1], depth + 1), rw(s[2], depth + 1))
+        if k == "call":
+            return (k, s[1], tuple(rw(a, depth + 1) for a in s[2])) + s[3:]
+        if k == "icall":
+            return (k, s[1], tuple(rw(a, depth + 1) for a in s[2])) + s[3:]
+        if k == "bin":
+            return (k, s[1], rw(s[2], depth + 1), rw(s[3], depth + 1))
+        if k == "un":
+            return (k, s[1], rw(s[2], depth + 1))
+        if k == "cast":
+            return (k, rw(s[1], depth + 1), s[2])
+        if k == "agg":
+            return (k, s[1], tuple(rw(a, depth + 1) for a in s[2]), s[3])
+        if k == "phi":
+            return (k, tuple(rw(a, depth + 1) for a in s[1]))
+        return s
+    return fmt_sym(rw(sym, 0), True, maxdepth)
